@@ -12,11 +12,21 @@ SPEC = {
     ],
     "assumptions": [
         "buffers are shorter than 2^64 bytes (Rust slices are at most isize::MAX long)",
-        "operation arguments are usize values; element types are non-empty tuples of the nine primitives",
+        "operation arguments are usize values; element types are non-empty tuples of the nine primitives; "
+        "dependent records are sequences of 0-8 primitives read field by field",
+        "read_to_vec is driven on arrays of at most 4096 declared items and Debug on at most 1000 (both walk / "
+        "preallocate the declared length, which for records of size 0 is not bounded by the data)",
     ],
-    "rule": "random programs of 1-24 reader operations (21 kinds, 13 element types) over random/sorted/"
-            "constant buffers of 0-300 bytes, arguments drawn from in-range, boundary (len+-2) and "
-            "usize-extreme classes; distinct = distinct (buffer, program) inputs; a case is counted "
-            "non-trivial when distinct (identical inputs are counted once); class histogram keys are the "
-            "set of result kinds (ok/er/pa/oo) the program produced",
+    "rule": "random programs of reader operations (43 kinds: the 21 core ones + scope data/read/read_dep, cached "
+            "reads, ReadScopeOwned, dependent arrays with records of 0-8 fields, ReadArrayCow borrowed/owned, "
+            "Debug, CheckIndex, size_hint of iter_res; 15 element types) over random/sorted/constant buffers of "
+            "0-300 bytes obtained from ReadScope::new or ReadBuf; half of the programs start with a structured "
+            "part (scope moves in range / to the end / past the end / usize-extreme with cached, direct and "
+            "cursor reads after every move; a dependent array of declared length 0, 1, few, what fits, one more, "
+            "huge, looked at through every public view; cow views of a plain or strided array), arguments drawn "
+            "from in-range, boundary (len+-2) and usize-extreme classes; after every operation the positions "
+            "(cursor remaining/base, scope base/length) are compared; iterators are pulled at most 1000 times so "
+            "that an endless one is a wrong count, not a hang; distinct = distinct (buffer, program) inputs; a "
+            "case is counted non-trivial when distinct; class histogram keys are the set of result kinds "
+            "(ok/er/pa/oo) + the operation groups exercised (C cache, S scope reads, D dependent arrays, W cow)",
 }
